@@ -114,6 +114,13 @@ type KnownFinding struct {
 func main() {
 	flag.Parse()
 	start := time.Now()
+	// offline toolchain: the newer Go release pre-installed beside the default one
+	if _, err := os.Stat("/opt/veriftools/go1.26.8/bin/go"); err == nil {
+		os.Setenv("PATH", "/opt/veriftools/go1.26.8/bin:"+os.Getenv("PATH"))
+	}
+	for k, v := range map[string]string{"GOFLAGS": "-mod=mod", "GOPROXY": "off", "GOSUMDB": "off", "GOTOOLCHAIN": "local"} {
+		os.Setenv(k, v)
+	}
 	if *flagProp == "" && *flagDumpSSA == "" {
 		fmt.Fprintln(os.Stderr, "usage: govc -prop Cxx [-tier quick|thorough]")
 		os.Exit(2)
